@@ -226,7 +226,7 @@ class OriginTyper:
                 return S({"ctx"})
             return scal(b)
         if isinstance(e, ast.Tuple):
-            return Tup(self.ty(f, x, loc) for x in e.elts)
+            return Tup((elem_of(self.ty(f, x.value, loc)) if isinstance(x, ast.Starred) else self.ty(f, x, loc)) for x in e.elts)
         if isinstance(e, (ast.List, ast.Set)):
             t = BOT
             for x in e.elts:
